@@ -57,8 +57,8 @@ def cfgs(tier):
         dmax = sum(t[1] for t in ch if t[0] == "F") + sum(t[2] for t in ch if t[0] == "P")
         only_f = all(t[0] in "FS" for t in ch)
         n = len(ch)
-        depth = None if only_f else ((6 if n == 1 else 5 if n == 2 else 4) + (0 if q else 3))
-        out.append(dict(consumers=[ch], window=2.5 if q else 4, dmax=dmax, gaps=(1, 2, 3) if n < 3 else (1, 2), beyond=1.5 if has_u(ch) else 0.5, max_depth=depth, value_scale=2 ** sum(1 for t in ch if t[0] == "S") if False else 1))
+        depth = None if only_f else ((6 if n == 1 else 5 if n == 2 else 4) + (0 if q else 2))
+        out.append(dict(consumers=[ch], window=2.5 if q else 3, dmax=dmax, gaps=(1, 2, 3) if n < 3 else (1, 2), beyond=1.5 if has_u(ch) else 0.5, max_depth=depth, value_scale=2 ** sum(1 for t in ch if t[0] == "S") if False else 1))
     # a direct consumer next to a delayed one (the delayed one keeps the output's history alive)
     for ch in ([["F", 2.5]], [["P", 2, 0]], [["U"]]):
         out.append(dict(consumers=[ch, []], window=2.5, dmax=3, gaps=(1, 2), beyond=1.5 if has_u(ch) else 0.5, max_depth=6 if q else 8))
@@ -74,6 +74,6 @@ def run(tier, seed, agg):
         "for every chain of 1-3 delay adapters from DelayFixed(d in {0,.5,1,2.5,4}), DelayToPull(n in {1,2,3}, extra in {0,.5}), DelayToPush mixed with Scale (all singles, all pairs of a representative set, all triples of a smaller set); "
         "chains of fixed delays run to a fixpoint, chains with history-dependent adapters to the stated depth; on every pull the time argument reaching the source output and the delivered value must equal the reference "
         "(max(t-d,start), n-th previous request - extra clamped at start, min(t, newest publication); composition of the maps, so delays add)",
-        bound=dict(lag_window_h=2.5 if tier == "quick" else 4, depth="6/5/4 (chain length 1/2/3)" if tier == "quick" else "9/8/7", lattice_h=0.5),
+        bound=dict(lag_window_h=2.5 if tier == "quick" else 3, depth="6/5/4 (chain length 1/2/3)" if tier == "quick" else "8/7/6", lattice_h=0.5),
         assumptions=["start time = declared time of the source output", "scheduler clause: the same chains on a link of a 2-component composition explored with engine A (snapshot BFS + stateless DFS); the driver must neither update the consumer while the reference's shifted time is unpublished nor advance the producer without need"],
     )
